@@ -8,10 +8,17 @@ import shutil
 
 OUT = "/verif/seeded"
 rows = []
-for res in sorted(glob.glob("/tmp/seedresults/C*-SEED*.json")):
+for res in sorted(glob.glob("/tmp/seedresults/C*-SEED*.json") + glob.glob("/tmp/seedresults/R2-C*-SEED*.json")):
     name = os.path.basename(res)[:-5]
-    prop, n = name.split("-")
-    src = "/tmp/seed-%s/%s" % (prop, n)
+    if ".r" in name:
+        continue  # reruns are merged by hand (latest result copied over the base name)
+    if name.startswith("R2-"):
+        _, prop, n = name.split("-")
+        src = "/tmp/seed2-%s/%s" % (prop, n)
+        name = "%s-R2%s" % (prop, n)
+    else:
+        prop, n = name.split("-")
+        src = "/tmp/seed-%s/%s" % (prop, n)
     try:
         r = json.load(open(res))
     except Exception:
@@ -47,7 +54,10 @@ for res in sorted(glob.glob("/tmp/seedresults/C*-SEED*.json")):
                                            note="suite failures listed here are load-dependent flaky tests (quota preemption / placeholder timeout / pkg/scheduler/tests) that also fail intermittently on the unchanged tree"),
                     check_history=hist, checks_now=entry)
     json.dump(meta_out, open(os.path.join(d, "meta.json"), "w"), indent=1)
-    rows.append((name, meta.get("summary") or "", meta.get("needs") or "", ", ".join("%s: %s" % kv for kv in entry.items())))
+rows = [r for r in rows if r[1].startswith("NOT CONFIRMED")]
+for mf in sorted(glob.glob(os.path.join(OUT, "*", "meta.json"))):
+    m = json.load(open(mf))
+    rows.append((m["seed"], m.get("summary") or "", m.get("needs") or "", ", ".join("%s: %s" % kv for kv in (m.get("checks_now") or {}).items())))
 with open(os.path.join(OUT, "SUMMARY.md"), "w") as f:
     f.write("# Seeded breaking changes (confirmed) and which check catches which\n\n")
     f.write("Each directory holds `patch.diff` (apply with `git -C /repo apply`), `demo_test.go.txt` (the author's demonstration; first line says where to place it) and `meta.json`.\n")
